@@ -1,6 +1,6 @@
 """C03 - MULgraph geometry round trip.  Rules DISP/KW, RECSEQ, TERM, FMAP, UNIT, JUST, BYNAME, INVTABLE, HEADER."""
 import ast
-from ..core import AnalysisError, norm, dotted, call_name, walk_no_nested, const_str, Folder, TOP
+from ..core import cnorm, AnalysisError, norm, dotted, call_name, walk_no_nested, const_str, Folder, TOP
 from ..iomodel import layout_equiv, dispatch_table
 from ..layout import load_table, fields_of
 from ..fmap import reader_map, find_destructure, ReaderEval, WriterEval, Sym, flatten_dest
@@ -70,7 +70,7 @@ def rule_disp(run):
     guards = dict((norm(n.body[0]), norm(n.test)) for n in walk_no_nested(wr.node) if isinstance(n, ast.If) and len(n.body) == 1)
     run.check(guards.get('self.write_surface(geo)') == 'not self.default_surface', 'mulgrid.write :: surface section iff some column has a non-default surface',
               'guard is %s' % guards.get('self.write_surface(geo)'), where=wr.where())
-    run.check(guards.get('self.write_wells(geo)') == 'self.num_wells > 0', 'mulgrid.write :: wells section iff there are wells',
+    run.check(guards.get('self.write_wells(geo)') in (cnorm('self.num_wells > 0'), 'self.num_wells', cnorm('len(self.welllist) > 0'), 'self.welllist'), 'mulgrid.write :: wells section iff there are wells',
               'guard is %s' % guards.get('self.write_wells(geo)'), where=wr.where())
     # final blank line
     bad = flow.must_pass(wr.node, lambda n: isinstance(n, ast.Expr) and isinstance(n.value, ast.Call) and call_name(n.value) == 'write'
